@@ -594,9 +594,9 @@ Data2D<double> TasgridWrapper::verifiedRead(std::string const& filename, int exp
 
 void TasgridWrapper::processEvalLike() const{
     int num_points = grid.getNumPoints();
-    if (not pass_flag) return;
 
     auto x = verifiedRead(xfilename, num_dimensions);
+    if (not pass_flag) return; // also stops when the matrix in the file has the wrong number of columns
 
     Data2D<double> result;
     switch(command){
@@ -697,12 +697,14 @@ void TasgridWrapper::outputHierarchicalCoefficients() const{
 }
 void TasgridWrapper::loadComputedValues(){
     auto v = verifiedRead(valsfilename, num_outputs);
+    if (not pass_flag) return;
     if (command == command_loadvalues){
         grid.loadNeededValues(v.release());
     }else{
+        auto x = verifiedRead(xfilename, num_dimensions);
+        if (not pass_flag) return;
         if (not grid.isUsingConstruction())
             grid.beginConstruction();
-        auto x = verifiedRead(xfilename, num_dimensions);
         grid.loadConstructedPoints(x.release(), v.release());
     }
 }
